@@ -148,7 +148,7 @@ impl Check for C01 {
         vec![chain(false), chain(true)]
     }
     fn rule() -> &'static str {
-        "Each run draws generator parameters (swarm), then a pair (f, g) of well-formed diagrams whose boundary types match (5/6) or were made to differ in one label / in length / by emptying one side (1/6). The right operand is, at a low rate, a collapsing spider or an identity-looking endo-spider (equal, non-injective legs); either operand may be one. At a low rate the diagrams are unusually large (up to ~50 nodes). The pair is composed on the simulated device with all decisions VecLike (control), on VecKind, and under 1-4 perturbed device schedules. A run is non-trivial iff the types match, the pair is not two empty diagrams and there is at least one identification or hyperedge; distinct = distinct (fingerprint of (f,g), fingerprint of all device decisions taken) pairs, counted in a hash set. Two stress cases (boundaries of 3*10^5 / 8*10^5 wires whose identifications form one chain) run in child processes on a 2 MiB stack."
+        "Each run draws generator parameters (swarm), then a pair (f, g) of well-formed diagrams whose boundary types match (5/6) or were made to differ in one label / in length / by emptying one side (1/6). The right operand is, at a low rate, a collapsing spider or an identity-looking endo-spider (equal, non-injective legs); either operand may be one. At a low rate the diagrams are unusually large (up to ~50 nodes), and rarer still past the 64 / 128 / 256 thresholds (70-300 nodes, interfaces up to 270 wires; probes size_64_or_more, size_256_or_more). The pair is composed on the simulated device with all decisions VecLike (control), on VecKind, and under 1-4 perturbed device schedules. A run is non-trivial iff the types match, the pair is not two empty diagrams and there is at least one identification or hyperedge; distinct = distinct (fingerprint of (f,g), fingerprint of all device decisions taken) pairs, counted in a hash set. Two stress cases (boundaries of 3*10^5 / 8*10^5 wires whose identifications form one chain) run in child processes on a 2 MiB stack."
     }
     fn assumptions() -> Vec<&'static str> {
         vec![
